@@ -225,3 +225,15 @@ fn shared_ring_new(reader: ByteReader) -> (r: SharedRing) ensures r.holds_decode
 /// `SharedRingReaderHandle::new(&shared)`: a reader that delegates to the ring reader, which is transparent (unit `ring`, C09 clauses of `read`)
 #[verifier::external_body]
 fn shared_ring_handle(shared: &SharedRing) -> (r: ByteReader) ensures r.yields_decoded_text() == shared.holds_decoded_text(), { unimplemented!() }
+
+// ---- validating document iterators (features garde / validator): the parts that do not touch the event source ----
+#[verifier::external_body] pub struct PathRec { _p: () }
+#[verifier::external_body] pub struct ValidationReport { _p: () }
+#[verifier::external_body]
+fn path_recorder_new() -> PathRec { unimplemented!() }
+/// `Validate::validate(&value)` / `ValidatorValidate::validate(&value)`
+#[verifier::external_body]
+fn validate_document(v: &DocVal) -> Result<(), ValidationReport> { unimplemented!() }
+/// `Error::ValidationError { report, locations: recorder.map }` / `Error::ValidatorError { errors, locations: recorder.map }`
+#[verifier::external_body]
+fn validation_error(report: ValidationReport, recorder: PathRec) -> (r: Error) ensures !(r is IOError), { unimplemented!() }
